@@ -59,6 +59,8 @@ func (f *HTTPHandler) rewriteFunc(r *httputil.ProxyRequest) {
 
 	for _, hj := range f.HeaderInjectors {
 		k := hj.GetHeaderName()
+		// never pass on a value the client supplied under this name
+		r.Out.Header.Del(k)
 		if v, err := hj.GetHeaderValue(r.In); err != nil {
 			f.logf("get header %s value for %s failed: %s", k, r.In.RemoteAddr, err)
 		} else if v != "" { // skip empty header values
